@@ -374,6 +374,13 @@ def check(pid, P, tier, seed, work, replay, t0):
         # the repository (or overlay) does not compile with the harness: the tie is broken
         return report_violation(pid, P, tier, seed, t0, work, None, [("harness build", hout[-3000:])], None, {}, theorems, discharged, [], 0, 0, notes)
 
+    hr = None
+    if P.get("race_streams"):
+        hr, hrout = build_harness(work, race=True)
+        if hr is None:
+            notes.append("race-detector build of the harness failed; running without -race: " + hrout[-300:])
+    race_reports = []
+
     # replay mode
     if replay:
         rp = load_json(replay)
@@ -409,7 +416,7 @@ def check(pid, P, tier, seed, work, replay, t0):
         for name, ops in zip(corpus_names, corpus_ops):
             issues, tr, md = eval_case(h, stream, ops, work, "corpus")
             total_lines += len(tr)
-            kf = next((k for k in known_open if k.get("corpus") == "%s/%s" % (stream, name)), None)
+            kf = next((k for k in known_open if "%s/%s" % (stream, name) in (k.get("corpora") or [k.get("corpus")])), None)
             spec_bad = [x for x in issues if "spec" in x[1]]
             div = [x for x in issues if x[1].startswith("impl!=model") or x[1].startswith("driver")]
             if kf is not None:
@@ -434,13 +441,17 @@ def check(pid, P, tier, seed, work, replay, t0):
         for sh, ops_p, _ in procs:
             tr_p = ops_p[:-4] + ".trace"
             st_p = ops_p[:-4] + ".stats"
+            hbin = hr if (hr and stream in P.get("race_streams", [])) else h
             with open(ops_p) as fi, open(tr_p, "w") as fo:
-                p = subprocess.Popen([h, "run", stream, st_p], stdin=fi, stdout=fo, stderr=subprocess.PIPE, text=True)
+                p = subprocess.Popen([hbin, "run", stream, st_p], stdin=fi, stdout=fo, stderr=subprocess.PIPE, text=True,
+                                     env=dict(os.environ, GORACE="exitcode=0 halt_on_error=0"))
             runs.append((sh, ops_p, tr_p, st_p, p))
         mruns = []
         for sh, ops_p, tr_p, st_p, p in runs:
             _, err = p.communicate()
-            if p.returncode != 0:
+            if err and "DATA RACE" in err:
+                race_reports.append({"stream": stream, "shard": sh, "report": err[:6000]})
+            elif p.returncode != 0:
                 broken.append(("harness run %s shard %d" % (stream, sh), (err or "")[-1500:]))
             md_p = ops_p[:-4] + ".model"
             fi = open(tr_p); fo = open(md_p, "w")
@@ -495,7 +506,11 @@ def check(pid, P, tier, seed, work, replay, t0):
             new_issues.append((stream, ops, its))
     evaluations = sum(s["cases"] for s in stats_all.values())
     nontrivial = sum(s["distinct_nontrivial"] for s in stats_all.values())
+    if race_reports:
+        broken.append(("Go race detector", "DATA RACE reported while running stream %s (first report in the replay file)" % race_reports[0]["stream"]))
     if broken or new_issues:
+        if race_reports:
+            notes.append("race_report: " + race_reports[0]["report"])
         return report_violation(pid, P, tier, seed, t0, work, h, broken, new_issues, stats_all, theorems, discharged, samples, evaluations, nontrivial, notes, total_lines, known_hits, explained)
 
     for k in known_open:
@@ -534,6 +549,13 @@ def report_violation(pid, P, tier, seed, t0, work, h, broken, new_issues, stats_
     else:
         rp["no_failing_input_found"] = True
         rp["unchecked"] = "; ".join(w for w, _ in broken)
+    rr = [n for n in notes if n.startswith("race_report: ")]
+    if rr:
+        rp["race_report"] = rr[0][len("race_report: "):]
+        rp["kind"] = rp.get("kind", "data-race")
+        rp.pop("no_failing_input_found", None)
+        found = True
+        notes = [n for n in notes if not n.startswith("race_report: ")]
     path = os.path.join(VERIF, "replays", "%s-%d-%d.json" % (pid, seed, int(time.time())))
     json.dump(rp, open(path, "w"), indent=1)
     write_evidence(pid, P, tier, seed, t0, theorems, discharged, stats_all, samples, evaluations, nontrivial, total_lines, 1, notes + ["VIOLATION reported: " + path], known_hits or {}, explained, None)
